@@ -25,6 +25,8 @@ THEOREMS = [
     "Pedal.Proxy.gen_arith",
     "Pedal.Proxy.gen_cmp",
     "Pedal.Proxy.gen_conv",
+    "Pedal.Proxy.gen_getitem",
+    "Pedal.Proxy.gen_contains",
     "Pedal.Proxy.c16_reflected_full_of_ok",
     "Pedal.Proxy.c16_reflected_counterexample",
 ]
@@ -162,8 +164,12 @@ def extra_cases(rng, tier):
             out.append({"family": "extra", "op": "format_spec", "args": [v, V("str", sp)], "proxied": [0]})
         for op in ("fstring", "sum", "sorted"):
             out.append({"family": "extra", "op": op, "args": [v], "proxied": [0]})
-        for plc in ("raw", "proxy"):
-            out.append({"family": "len_fn", "op": "len_fn", "left": v, "placement": plc})
+        out.append({"family": "len_fn", "op": "len_fn", "left": v, "placement": "proxy"})
+    seen_kinds = set()
+    for v in vals:          # one ordinary value per kind is enough (a recursing len() is slow to fail)
+        if v["kind"] not in seen_kinds:
+            seen_kinds.add(v["kind"])
+            out.append({"family": "len_fn", "op": "len_fn", "left": v, "placement": "raw"})
     return out
 
 
